@@ -169,7 +169,16 @@ impl ServerContext {
         let cancellations = self.cancellations.clone();
 
         tokio::spawn(async move {
-            let res = exec(cancel_token.clone()).await;
+            // Run the handler in its own task so that a panic inside it is observed here (as a
+            // JoinError) and still answered, instead of silently killing the only task that
+            // could respond to this request id.
+            let res = match tokio::spawn(exec(cancel_token.clone())).await {
+                Ok(res) => res,
+                Err(err) => {
+                    log::error!("request handler failed: {}", err);
+                    None
+                }
+            };
             if cancel_token.is_cancelled() {
                 let response = Response::new_err(
                     req_id.clone(),
